@@ -23,10 +23,12 @@ CLAIMED = {
    text='Unbounded proof for padded_batch_client_datasets (both loops, all client-size mixes incl. empty clients: emitted real '
         'rows = concatenation of the datasets in order, all batches but the last full, bucketed final size, ValueError exactly '
         'for a differing preprocessor object / feature set) and for RepeatableIterator (class invariant: first pass copies, later '
-        'passes replay exactly the buffer; builtin containers never mutated). buffered_shuffle and '
-        'buffered_shuffle_batch_client_datasets are covered by a bounded native stand-in only (labelled bounded in the evidence).',
+        'passes replay exactly the buffer; builtin containers never mutated). buffered_shuffle: output is a permutation of the '
+        'input (ghost witness of an arbitrary item, quantified buffer invariants, unbounded). shuffle_repeat_batch_federated_data: '
+        'seed and argument plumbing for every integer seed. buffered_shuffle_batch_client_datasets: bounded native stand-in only.',
    note='Trusted: TABLE contracts of the helpers (proved in C03), FLAT ghost concatenation axioms, per-example preprocessor '
-        'hypothesis. Bounded (not proved): buffered_shuffle multiset property, two-level shuffle. Not covered: non-trivial order.'),
+        'hypothesis, parametricity of buffered_shuffle in its items, RandomState.shuffle permutes. Bounded (not proved): two-level '
+        'shuffle composition. Not covered: non-trivial order.'),
  'C08': dict(
    text='Unbounded proof, over ids in an arbitrary total order, that intersect_slice_ranges is the meet of two half-open ranges '
         '(all 16 None patterns); that the SQL WHERE literal (parsed) and the explicit range tests of SQLite point lookups denote '
